@@ -4,5 +4,7 @@ CONSTANTS
   Runs = {0, 1}
   MaxSegs = 2
   MaxLen = 3
+  HopLimit = 5
+  SegLimit = 3
 INVARIANTS TypeOK GraphEqualsDefinition WeightIsLinks PathsAreWalks HopFieldsVerify MtuIsTopologyMinimum ResultOK
 CHECK_DEADLOCK FALSE
